@@ -31,7 +31,12 @@ def impl_shape(src):
         tree = ast.parse(code)
         shape = gen_tables.py_shape_list(tree.body)
         parsed = True
-    except SyntaxError:
+    except SyntaxError as e:
+        msg = str(e.msg)
+        if "truncated" in msg or "malformed" in msg or "unicodeescape" in msg or "unknown Unicode character" in msg:
+            # a lexical error INSIDE a string literal (incomplete Python escape written in a
+            # Vyxal string): outside the block-structure model, judged by C02's oracle only
+            return None
         shape, parsed = "[]", False
     except gen_tables.TranslatorError:
         return None
